@@ -3,6 +3,7 @@ package byzsim
 import (
 	"encoding/json"
 	"fmt"
+	"sort"
 	"strings"
 
 	"github.com/MichaelMure/git-bug/zzverif/model"
@@ -381,6 +382,9 @@ func init() {
 		h.Nodes = append(h.Nodes, &node{Spec: model.PackSpec{Author: h.Nodes[0].Spec.Author, Version: 4, Edit: h.maxEdit() + 1, Ops: []json.RawMessage{model.OpJSON(m)}}, Parents: []int{last}})
 	}})
 	add(mutation{Name: "byte-flip", Level: "commit", Verdict: "either", Props: "C07", Applies: hasOps, Apply: nil})
+
+	// several groups above come from Go maps (random iteration order): fix the catalogue order
+	sort.SliceStable(catalogue, func(i, j int) bool { return catalogue[i].Name < catalogue[j].Name })
 }
 
 // bump raises the edit time of commit c and of all its descendants by d (ancestry stays consistent).
